@@ -21,7 +21,9 @@ RULE = (
     "alias; line order: declarations first | arrows first | reversed | every rotation; noise text "
     "outside the tags: none | before | after | both): all diagrams with at most D deviations from "
     "the default choice are generated, written to a file and parsed with the real PumlParser; "
-    "missing start/end tags must raise PumlParsingError. A case is one diagram text; non-trivial = "
+    "missing start/end tags must raise PumlParsingError; in addition every ordered pair of a pool of "
+    "small two-component diagrams (aliases and component names drawn from one identifier pool) is "
+    "parsed back to back and the second result compared with its ground truth. A case is one diagram text; non-trivial = "
     "at least one arrow and at least one deviation"
 )
 ASSUMPTIONS = [
@@ -54,7 +56,10 @@ def plan(tier, seed):
             for sub in itertools.combinations(range(len(pairs)), r):
                 shards.append({"k": 4, "dbits": sum(1 << i for i in sub), "maxdev": 2, "bound": "components=4 arrows<=3 deviations<=2"})
     shards.append({"k": 0, "tags": True, "bound": "missing tags"})
-    return {"shards": shards, "require_nonzero": ["parsed", "alias-ref", "dotted", "tags:PumlParsingError"]}
+    n = len(small_diagrams())
+    for lo in range(0, n, 12):
+        shards.append({"k": 0, "pairs": True, "lo": lo, "hi": lo + 12, "bound": f"ordered pairs of {n} small diagrams"})
+    return {"shards": shards, "require_nonzero": ["parsed", "alias-ref", "dotted", "tags:PumlParsingError", "pair"]}
 
 
 def ref(n, kind):
@@ -119,11 +124,68 @@ def js(x):
     return list(x)
 
 
+# ---------------------------------------------------------------- sequences of diagrams
+
+POOL_NAMES = ["A", "m_2", "al_a", "x1"]
+
+
+def small_diagrams():
+    """Two-component diagrams whose aliases are drawn from the same identifier pool as the
+    component names (never colliding inside one diagram): what is an alias in one diagram is a
+    component in another.  -> list of (text, expected)."""
+    out = []
+    for a, b in itertools.permutations(POOL_NAMES, 2):
+        free = [n for n in POOL_NAMES if n not in (a, b)]
+        for da, db in itertools.product((False, True), repeat=2):  # declared with alias?
+            al = {}
+            if da:
+                al[a] = free[0]
+            if db:
+                al[b] = free[1]
+            decl = [f"[{c}] as {al[c]}" if c in al else f"[{c}]" for c in (a, b)]
+            for D in ([], [(a, b)], [(b, a)]):
+                ref_opts = [["br"] + (["alias"] if x in al else []) for x in (D[0] if D else ())]
+                for refs in (itertools.product(*ref_opts) if D else [()]):
+                    lines = list(decl)
+                    if D:
+                        s_, d_ = D[0]
+                        l = al[s_] if refs[0] == "alias" else f"[{s_}]"
+                        r = al[d_] if refs[1] == "alias" else f"[{d_}]"
+                        lines.append(f"{l} --> {r}")
+                    txt = "@startuml\n" + "\n".join(lines) + "\n@enduml\n"
+                    exp = ({a, b}, {D[0][0]: {D[0][1]}} if D else {})
+                    out.append((txt, exp))
+    return out
+
+
+def run_pairs(shard, res, path):
+    """Every ordered pair of small diagrams parsed one after the other in one process: the second
+    result must be what the second text says, whatever was parsed before."""
+    pool = small_diagrams()
+    for i in range(shard["lo"], min(shard["hi"], len(pool))):
+        t1, _ = pool[i]
+        for t2, exp2 in pool:
+            parse(path, t1)
+            got = parse(path, t2)
+            res.states += 1
+            res.transitions += 2
+            res.evaluations += 1
+            res.traces += 1
+            res.nontrivial += 1
+            res.stats["pair"] += 1
+            if got != exp2:
+                res.violation("parse-result-depends-on-diagram-parsed-before", {"first": t1, "text": t2}, js(exp2), js(got))
+    res.sample({"first": pool[shard["lo"]][0], "then": pool[-1][0], "expected_for_second": js(pool[-1][1])})
+
+
 def run_shard(shard, tier, seed):
     res = Result(shard["bound"])
-    work = scratch_dir(f"c06-{shard.get('k')}-{shard.get('dbits', 0)}")
+    work = scratch_dir(f"c06-{shard.get('k')}-{shard.get('dbits', 0)}-{shard.get('lo', 0)}")
     path = os.path.join(work, "d.puml")
     try:
+        if shard.get("pairs"):
+            run_pairs(shard, res, path)
+            return res
         if shard.get("tags"):
             body = "[A] --> [B]\ncomponent C"
             for name, txt in (("no-tags", body), ("no-end", "@startuml\n" + body), ("no-start", body + "\n@enduml"),
@@ -179,6 +241,8 @@ def run_shard(shard, tier, seed):
 def _check_case(case):
     work = scratch_dir("c06-replay")
     try:
+        if case.get("first"):
+            parse(os.path.join(work, "d.puml"), case["first"])
         got = parse(os.path.join(work, "d.puml"), case["text"])
     finally:
         remove_scratch(work)
@@ -193,7 +257,9 @@ def minimise(v):
         feats.append("dotted")
     if " as " in txt:
         feats.append("alias")
-    if v["kind"] == "parse-result":
+    if v["kind"] == "parse-result-depends-on-diagram-parsed-before":
+        v["signature"] = f"{v['kind']}:{'+'.join(feats) or 'plain'}"
+    elif v["kind"] == "parse-result":
         v["signature"] = f"parse-result:{'+'.join(feats) or 'plain'}:dev{v['case']['deviations']}"
     else:
         v["signature"] = f"{v['kind']}:{v['case']['variant']}"
